@@ -1,0 +1,13 @@
+//go:build verif
+
+package fluentdforward
+
+// VerifE2ESetChunkLimits sets the package-level chunk limits (maximum records and maximum uncompressed
+// bytes per chunk; 0 = no limit) used by chunk makers created afterwards and returns the previous values.
+// Only compiled with the "verif" build tag; used by the end-to-end verification harness to run the real
+// agent with small chunks.
+func VerifE2ESetChunkLimits(maxRecords, maxBytes int) (prevRecords, prevBytes int) {
+	prevRecords, prevBytes = chunkMaxRecords, chunkMaxSizeBytes
+	chunkMaxRecords, chunkMaxSizeBytes = maxRecords, maxBytes
+	return
+}
